@@ -1311,7 +1311,7 @@ def c18(ctx):
     # function level: the unexported mostSpecificMatchingBackend on random backend sets (go test -overlay)
     fn_out = os.path.join(ctx.scratch, "routefn.ndjson")
     nfn = 20000 if ctx.tier == "thorough" else 2000
-    rc, out = go_test_overlay(ctx, "app/store", os.path.join(VERIF, "harness", "overlay", "route_verif_test.go"), run="TestVerifRouteFn",
+    rc, out = go_test_overlay(ctx, "app/store", os.path.join(VERIF, "harness", "overlay", "route_verif_test.go.txt"), run="TestVerifRouteFn",
                               env={"VERIF_ROUTEFN_OUT": fn_out, "VERIF_ROUTEFN_N": str(nfn), "VERIF_SEED": str(ctx.seed)})
     if rc != 0 or not os.path.exists(fn_out):
         save_debug(ctx, "routefn.out", out)
@@ -1361,6 +1361,39 @@ def c19(ctx):
     events, _ = drive(ctx, "apprelay", cases=cpath, timeout=3000)
     segs, fails = app_validate(ctx, events, "relay", {"RelayCase", "BlobCase", "FaultCase"})
     ok = [s for s in segs if not any(s is f[0] for f in fails)]
+    # concurrent clients and agent calls: the fake API's store operations + harness observations vs AppRelay
+    tlc_must_hold(ctx, "AppRelay", "AppRelay_MC.cfg")
+    tlc_must_fail(ctx, "AppRelay", "AppRelay_Attack_SharedResponseKey.cfg")
+    cev, _ = drive(ctx, "apprelayc", timeout=3000)
+    csegs = split_segments(cev)
+    cfails = validate_segments(ctx, "AppRelayTrace", "AppRelayTrace.cfg", csegs, batch=10)
+    for seg, idx, out, inv in cfails:
+        e = seg[min(max(idx, 0), len(seg) - 1)]
+        report_failure(ctx, "apprelay-concurrent:%s" % (inv or e.get("ev")), "concurrent relay round %s: event #%d %s is not a behaviour of AppRelay%s" % (
+            seg[0].get("seg"), idx + 1, json.dumps({k: v for k, v in e.items() if k not in ("pid", "seq", "src")}, sort_keys=True)[:300], (" (invariant %s)" % inv) if inv else ""), seg=seg, tlc_out=out[-3000:])
+    if csegs and not cfails:
+        def swapped(seg):
+            g = [e for e in seg if e.get("ev") == "ClientGot"]
+            if len(g) < 2 or g[0]["tok"] == g[1]["tok"]:
+                return False
+            g[0]["tok"], g[1]["tok"] = g[1]["tok"], g[0]["tok"]
+            return True
+
+        def listed_after_done(seg):
+            ends = [i for i, e in enumerate(seg) if e.get("ev") == "RespondEnd"]
+            if not ends:
+                return False
+            e = seg[ends[-1]]
+            seg.insert(ends[-1] + 1, {"ev": "DsQueryPending", "b": e["b"], "ids": [e["r"]]})
+            return True
+
+        def wrong_backend(seg):
+            for e in seg:
+                if e.get("ev") == "DsPutReq" and not e.get("completed"):
+                    e["b"] = "cc-1" if e["b"] != "cc-1" else "cc-2"
+                    return True
+            return False
+        selftest(ctx, "AppRelayTrace", "AppRelayTrace.cfg", csegs[0], [("responses-swapped", swapped), ("completed-request-listed", listed_after_done), ("stored-under-other-backend", wrong_backend)])
     relays = [s for s in ok if s[-1].get("ev") == "RelayCase"]
     blobs = [s for s in ok if s[-1].get("ev") == "BlobCase" and s[-1]["n"] >= 1000000]
     if relays and blobs:
